@@ -23,6 +23,7 @@
      spec <addrs> <keys> <from> <to>
      light <n>                      n blocks without transactions (err if any store fails)
      push | pop | forgetall         save / restore the session state; drop the whole cache (counterfactuals)
+     snap                           the running-filter snapshot on the model's disk: none | <from> <next>
      hyp                            hypotheses of the theorem on the history so far
      state                          debugging
 
@@ -185,6 +186,10 @@ let () =
               | _, _ -> "skip"))
       | ["spec"; a; k; f; t] ->
           "spec " ^ show_evs (filter_spec !st.chain (parse_filter a k) (num f) (num t))
+      | ["snap"] ->
+          (match !st.snapshot with
+           | None -> "none"
+           | Some (w, nx) -> Printf.sprintf "%d %d" (int_of_n w.w_from) (int_of_n nx))
       | ["hyp"] ->
           Printf.sprintf "fresh=%s snapbad=%s stalepers=%s"
             (b2s (cache_fresh_b !st)) (b2s !snap_bad) (b2s !stale_pers)
